@@ -15,7 +15,9 @@ RULE = ('Hypothesis-generated packets (type 0..6 - binary types reached by '
         'frame against an independent spec-derived codec, reverse '
         'interoperation (reference encoder with other legal JSON escaping / '
         'whitespace choices -> Packet decode), binary admission; encode() '
-        'of one packet object is repeatable, and the packet object that '
+        'of one packet object is repeatable, also after another packet '
+        'failed to encode (set / object / tuple-key / raw bytes payload); the '
+        'packet object that '
         'decoding + add_attachment produced re-encodes to the prescribed '
         'frames (relaying). '
         'Non-trivial: >=2 header fields besides the type (attachments, '
@@ -63,7 +65,9 @@ def strategy(tier):
         return S.fdict({
             'type': st.just(ptype), 'nsp': S.namespace_st(),
             'id': S.ack_id_st(), 'data': data,
-            'choice': st.integers(0, 7), 'ws': st.sampled_from(['', ' ', '\n\t'])})
+            'choice': st.integers(0, 7), 'ws': st.sampled_from(['', ' ', '\n\t']),
+            # what the application tried to send, in vain, before
+            'prior': st.sampled_from(['set', 'object', 'key', 'bytes'])})
     return st.sampled_from([0, 1, 2, 2, 2, 3, 3, 4, 5, 6]).flatmap(mk)
 
 
@@ -106,7 +110,25 @@ def check_case(case):
     if pkt.packet_type != etype:
         raise Violation('promotion', 'type %r after construction, expected %r'
                         % (pkt.packet_type, etype))
+    enc0 = pkt.encode()
+    # an earlier packet of the application could not be encoded: that is the
+    # application's problem, and changes nothing for the packets after it
+    bad = {'set': ['x', {1, 2}], 'object': ['x', object()],
+           'key': ['x', {(1, 2): 3}],
+           'bytes': None}[case.get('prior', 'set')]
+    try:
+        if bad is None:
+            P.Packet(2, data=['x', b'raw'], namespace=nsp,
+                     binary=False).encode()
+        else:
+            P.Packet(2, data=bad, namespace=nsp, id=pid).encode()
+    except Exception:
+        labels['after_failed_encode'] = True
     enc = pkt.encode()
+    if not strict_eq(enc, enc0):
+        raise Violation('encode-depends-on-history', 'after a failed '
+                        'encode of another packet: %r, before: %r'
+                        % (repr(enc)[:200], repr(enc0)[:200]))
     if etype in (5, 6):
         if not isinstance(enc, list) or not isinstance(enc[0], str):
             raise Violation('encode-shape', 'binary packet not a list')
